@@ -745,7 +745,7 @@ pub fn run(prop: Prop, tier: Tier) -> i32 {
     let b = bounds(prop, tier);
     let thorough = tier == Tier::Thorough;
     let u = universe(b.n_seg.max(b.n_frag), b.n_leg.max(b.n_frag), b.n_tap.max(b.n_frag), b.alpha);
-    let models = descriptor_models(&u, b.n_seg, b.n_shwsh, b.n_leg, b.n_tap, b.n_part);
+    let models = crate::sat::descriptor_models_ctx(&u, b.n_seg, b.n_shwsh, b.n_leg, b.n_tap, b.n_part, if prop == Prop::C02 { b.n_seg - 2 } else { b.n_seg - 1 });
     rep.extra(
         "bounds",
         json!({"nodes": {"wsh": b.n_seg, "sh-wsh": b.n_shwsh, "sh": b.n_leg, "tr": b.n_tap, "fragments(H1)": b.n_frag},
